@@ -35,6 +35,15 @@ theorem run_passThrough (w : World) (fixed : Bool) (st : List Mw) (req : Req)
     | issue k u a => simp [passThrough] at hm
     | redirect a => simp [passThrough] at hm
 
+theorem shells_passThrough_trace (st : List Mw) (r : Req) :
+    shells (st.map (fun m => Ev.enter (ident m)) ++ [.shell r] ++ st.reverse.map (fun m => Ev.exit (ident m))) = 1 := by
+  have h1 : ∀ l : List Mw, List.countP isShell (l.map (fun m => Ev.enter (ident m))) = 0 := by
+    intro l; induction l <;> simp_all [isShell]
+  have h2 : ∀ l : List Mw, List.countP isShell (l.map (fun m => Ev.exit (ident m))) = 0 := by
+    intro l; induction l <;> simp_all [isShell]
+  simp only [shells, List.countP_append, h1, h2]
+  simp [isShell]
+
 /-- nothing below a short-circuiting middleware matters -/
 theorem run_cut_short (w : World) (fixed : Bool) (pre : List Mw) (k s : Nat) (rest : List Mw) (req : Req) :
     run w fixed (pre ++ .short k s :: rest) req = run w fixed (pre ++ [.short k s]) req := by
@@ -198,5 +207,160 @@ theorem loop_stops (w : World) (fixed : Bool) (n : Nat) (req : Req) (base : Url)
       | cons a pre =>
         simp at h
         exact ih req' base' pre h.2
+
+/-! ### the repaired loop is the documented walk -/
+
+/-- with `base_url` kept equal to the current URL, one iteration of the code is one hop of the specification -/
+theorem step_fixed_hop (w : World) (req : Req) :
+    redirectStep w true req req.url =
+      match hop w req.url with
+      | .done => .stop (.ok req)
+      | .fail e => .stop (.err e)
+      | .stay => .next req req.url
+      | .to u => .next { req with url := u } u := by
+  unfold redirectStep hop
+  cases w.srv req.url with
+  | err e => rfl
+  | ok res =>
+    by_cases hs : isRedirect res.status = true
+    · simp only [hs, if_true, Bool.not_true, Bool.false_eq_true, if_false]
+      cases res.locs.getLast? with
+      | none => rfl
+      | some loc =>
+        simp only
+        cases w.parse loc with
+        | none => rfl
+        | some p =>
+          cases p with
+          | abs v => rfl
+          | bad => rfl
+          | rel =>
+            simp only
+            cases w.join req.url loc with
+            | none => rfl
+            | some j => cases j <;> simp
+    · simp [hs]
+
+theorem probe_url (req : Req) (u v : Url) : probe { req with url := u } v = probe req v := rfl
+
+theorem loop_fixed_walk (w : World) (n : Nat) (req : Req) :
+    redirectLoop w true n req req.url =
+      ((walk w n req.url).1.map (probe req),
+        match (walk w n req.url).2 with
+        | .final u => .ok { req with url := u }
+        | .fail e => .err e) := by
+  induction n generalizing req with
+  | zero => simp [redirectLoop, walk]
+  | succ n ih =>
+    unfold redirectLoop walk
+    rw [step_fixed_hop]
+    have hc : Ev.shell req.clone = probe req req.url := clone_eq_probe req req ⟨rfl, rfl, rfl⟩
+    cases hop w req.url with
+    | done => simp [hc]
+    | fail e => simp [hc]
+    | stay => simp [hc, ih req]
+    | to u =>
+      have := ih { req with url := u }
+      simp only at this
+      simp [hc, this, probe_url]
+
+theorem issued_fixed (w : World) (u : Url) (att : Option Nat) : issued w true u att = issuedReq w u att := by
+  cases att with
+  | none => rfl
+  | some a =>
+    have h := loop_fixed_walk w a (getReq u)
+    simp only [getReq] at h
+    simp only [issued, issuedReq, redirect, getReq, h]
+    cases (walk w a u).2 <;> simp
+
+/-- `Next::run` of the repaired code is the right fold of the documented handlers over the endpoint -/
+theorem run_fixed_foldr (w : World) (st : List Mw) (req : Req) :
+    run w true st req = st.foldr (sem w) (endpoint w) req := by
+  induction st generalizing req with
+  | nil => rfl
+  | cons m rest ih =>
+    cases m with
+    | pass k => simp [run, sem, ih]
+    | tag k => simp [run, sem, ih]
+    | short k s => simp [run, sem]
+    | fail k => simp [run, sem]
+    | twice k => simp [run, sem, ih]
+    | issue k u a =>
+      simp only [run, List.foldr_cons, sem, issued_fixed]
+      cases h : (issuedReq w u a) with
+      | mk t r => cases r <;> simp [ih]
+    | redirect a =>
+      simp only [run, List.foldr_cons, sem, redirect, loop_fixed_walk]
+      cases (walk w a req.url).2 <;> simp [ih]
+
+theorem send_fixed_chain (w : World) (client st : List Mw) (req : Req) :
+    send w true client st req = chain w client st req := by
+  simp [send, chain, run_fixed_foldr, List.foldr_append]
+
+/-! ### the code as it is agrees with the repaired code when no relative hop follows a relative hop -/
+
+/-- `base_url` is the current URL, or the current URL came out of a join -/
+def BaseInv (w : World) (req : Req) (base : Url) : Prop :=
+  base = req.url ∨ ∃ b loc, w.join b loc = some (.ok req.url)
+
+theorem loop_unfixed_eq (w : World) (hw : NoRelAfterRel w) (n : Nat) (req : Req) (base : Url)
+    (hinv : BaseInv w req base) :
+    redirectLoop w false n req base = redirectLoop w true n req req.url := by
+  induction n generalizing req base with
+  | zero => rfl
+  | succ n ih =>
+    unfold redirectLoop redirectStep
+    cases hsrv : w.srv req.url with
+    | err e => rfl
+    | ok res =>
+      by_cases hs : isRedirect res.status = true
+      · simp only [hs, if_true]
+        cases hl : res.locs.getLast? with
+        | none => simp only; rw [ih req base hinv]
+        | some loc =>
+          simp only
+          cases hp : w.parse loc with
+          | none => rfl
+          | some p =>
+            cases p with
+            | abs v => simp only; rw [ih _ v (Or.inl rfl)]
+            | bad => rfl
+            | rel =>
+              rcases hinv with hb | ⟨b, l, hj⟩
+              · subst hb
+                simp only
+                cases hj : w.join req.url loc with
+                | none => rfl
+                | some j =>
+                  cases j with
+                  | bad => rfl
+                  | ok u =>
+                    simp only [Bool.false_eq_true, if_false, if_true]
+                    rw [ih { req with url := u } req.url (Or.inr ⟨req.url, loc, hj⟩)]
+              · exact absurd hp (hw b l req.url hj res hsrv hs loc hl)
+      · simp [hs]
+
+theorem issued_unfixed_eq (w : World) (hw : NoRelAfterRel w) (u : Url) (att : Option Nat) :
+    issued w false u att = issued w true u att := by
+  cases att with
+  | none => rfl
+  | some a =>
+    have := loop_unfixed_eq w hw a (getReq u) u (Or.inl rfl)
+    simp only [getReq] at this
+    simp only [issued, getReq, this]
+
+theorem run_unfixed_eq (w : World) (hw : NoRelAfterRel w) (st : List Mw) (req : Req) :
+    run w false st req = run w true st req := by
+  induction st generalizing req with
+  | nil => rfl
+  | cons m rest ih =>
+    cases m with
+    | pass k => simp [run, ih]
+    | tag k => simp [run, ih]
+    | short k s => simp [run]
+    | fail k => simp [run]
+    | twice k => simp [run, ih]
+    | issue k u a => simp [run, ih, issued_unfixed_eq w hw]
+    | redirect a => simp [run, ih, loop_unfixed_eq w hw a req req.url (Or.inl rfl)]
 
 end L.Mw
